@@ -52,6 +52,7 @@ STRENGTHENED = {
     "C18_d": "C18: Dynamics.sq4 asked twice with different wave-number ranges on one object, compared with a fresh object",
     "C19_d": "C19: structural harness for read_lammpslog (row counts per section are integer symbols forked by the engine) - "
              "the log reader was outside the claim before",
+    "C20_b": "C20: the written neighbour file is also read back with Nmax smaller than a coordination number (same reader site as C05_b)",
     "C02_d": "np.allclose / np.isclose facade by documented semantics (added while this change was running; not needed for the verdict)",
 }
 
